@@ -234,7 +234,7 @@ static int run_c08(uint64_t seed, long from, long to, int nbase, bool count_only
         hc::begin_case(std::to_string(idx));
         int b = 0; while (b + 1 < nbase && start[b + 1] <= idx) b++;
         Base & B = *bases[b]; size_t L = (size_t)(idx - start[b]);
-        wd::arm(30, "c08-session");
+        wd::arm(60, "c08-session");
         std::string ctx = " base=" + std::to_string(b) + " [" + B.cfg.str() + (B.initial_header ? " initial-header" : "") + "] cut=" + std::to_string(L) + "/" + std::to_string(B.file.size());
         wd::note(ctx.c_str());
         twin::Bytes pre(B.file.begin(), B.file.begin() + L); twin::save(path, pre);
@@ -286,7 +286,7 @@ static int run_ids(long from, long to, const char * listfile) {
     long n = 0, objs = 0;
     for (long i = from; i < to && i < (long)files.size(); i++) {
         hc::begin_case(std::to_string(i));
-        wd::arm(30, "ids-session"); wd::note(files[i].c_str());
+        wd::arm(60, "ids-session"); wd::note(files[i].c_str());
         std::ostringstream line; line << "@ids " << i;
         try {
             File f; f.open(files[i].c_str(), std::ios_base::in);
@@ -442,7 +442,7 @@ static int run_c10(uint64_t seed, long from, long to, const char * listfile, lon
         std::string kind; twin::Bytes mut = c10_mutant(bases[bi], j, kind);
         twin::save(path, mut);
         std::string ctx = kind + " #" + std::to_string(j) + " of " + files[bi].substr(files[bi].rfind('/') + 1) + " (" + std::to_string(mut.size()) + " bytes) case=" + std::to_string(c);
-        wd::arm(20, ("c10:" + kind).c_str()); wd::note(ctx.c_str());
+        wd::arm(60, ("c10:" + kind).c_str()); wd::note(ctx.c_str());
         std::string key;
         long limit = 64 * (long)mut.size() + 4096;
         try {
